@@ -487,6 +487,11 @@ fn indent(amount: usize) -> String {
 
 fn newline_if_body(core: &Core, ind: usize) -> String {
     match core {
+        // Python does not permit an empty block
+        Core::Empty => format!("\n{}pass", indent(ind + 1)),
+        Core::Block { statements } if statements.iter().all(|s| matches!(s, Core::Empty)) => {
+            format!("\n{}pass", indent(ind + 1))
+        }
         Core::Block { .. } => format!("\n{}", to_py(core, ind + 1)),
         _ => format!("\n{}{}", indent(ind + 1), to_py(core, ind + 1)),
     }
